@@ -521,6 +521,12 @@ pub fn rmw_programs(three: bool) -> Vec<Program<AtomicFam>> {
 }
 
 pub fn program_set(set: &str) -> Vec<Program<AtomicFam>> {
+    if set == "highids" {
+        // every k-th program of the quick set with its threads moved to task ids above 16
+        let base = program_set("quick");
+        let k = (base.len() / 40).max(1);
+        return base.iter().enumerate().filter(|(i, p)| i % k == 0 && p.threads.len() <= 4).map(|(_, p)| with_high_ids(p, 16)).collect();
+    }
     match set {
         "rmw" => rmw_programs(false),
         "rmw3" => rmw_programs(true),
